@@ -17,7 +17,7 @@ use tokio::net::TcpListener;
 const RULE: &str = "one case = one raw HTTP/1.1 request (plus, where the statement demands indistinguishability, the same request on an unknown path) sent over a real socket to a real run_listener; \
 the matrix method x path x {valid, case change, absent, empty, near-miss x2, duplicated-invalid, duplicated-mixed, space-padded} for each of Connection / Upgrade / Sec-WebSocket-Version / Sec-WebSocket-Protocol x key {24 characters, longer, shorter, absent, empty} x request line {HTTP/1.1, HTTP/1.0} x PSK presented {equal, absent, prefix, extended, case variant, padded} \
 x server configuration {PSK on/off} x {obfs on/off} x {404 body, stub backend, stub backend with forwarding headers}: all cells with at most two deviations from the valid request are enumerated, random cells beyond. \
-Oracle: 101 iff the independent predicate holds, with the accepted protocol and our own SHA-1/base64 accept hash and a live WebSocket behind it (Ping answered); otherwise status/headers/body equal the unknown-path response and the stub backend saw the same request. \
+Oracle: 101 iff the independent predicate holds, with the accepted protocol and our own SHA-1/base64 accept hash and a live WebSocket behind it (Ping answered, also when the Ping is sent in the same write as the request); otherwise status/headers/body equal the unknown-path response and the stub backend saw the same request. \
 Cells the statement leaves open (duplicate header with one valid value, empty key, HTTP/1.0 request line) get no verdict on 101-or-not, but when refused they must be hidden like any other request. Non-trivial = the cell deviates from the valid request in at least one dimension or is answered 101";
 
 const PSK: &str = "S3cr3t-Psk";
@@ -260,6 +260,33 @@ async fn ws_ping_probe(mut s: tokio::net::TcpStream, leftover: Vec<u8>) -> bool 
     buf.iter().any(|b| *b == 0x8A)
 }
 
+/// The upgrade request and the first WebSocket frame (a masked Ping) in one write: what the server's HTTP layer has read past
+/// the request head belongs to the tunnel. Some(true) = a Pong came back behind the 101.
+async fn pipelined_ping_probe(addr: SocketAddr, req: &[u8]) -> Option<bool> {
+    let mut s = tokio::net::TcpStream::connect(addr).await.ok()?;
+    s.set_nodelay(true).ok();
+    let mut all = req.to_vec();
+    all.extend_from_slice(&[0x89, 0x80, 9, 8, 7, 6]);
+    s.write_all(&all).await.ok()?;
+    let mut buf = Vec::new();
+    let mut tmp = [0u8; 512];
+    for _ in 0..40 {
+        if let Some(p) = net::find(&buf, b"\r\n\r\n") {
+            if !buf.starts_with(b"HTTP/1.1 101") {
+                return None;
+            }
+            if buf[p + 4..].iter().any(|b| *b == 0x8A) {
+                return Some(true);
+            }
+        }
+        match tokio::time::timeout(std::time::Duration::from_secs(3), s.read(&mut tmp)).await {
+            Ok(Ok(n)) if n > 0 => buf.extend_from_slice(&tmp[..n]),
+            _ => break,
+        }
+    }
+    Some(false)
+}
+
 async fn run_cfg(st: &mut Stats, cfg: &SrvCfg, cells: &[Cell]) {
     let (addr, rec) = start_server(cfg).await;
     let cfg_s = format!("psk={} obfs={} backend={} forwarding_headers={}", cfg.psk, cfg.obfs, cfg.backend, cfg.fwd);
@@ -308,6 +335,18 @@ async fn run_cfg(st: &mut Stats, cfg: &SrvCfg, cells: &[Cell]) {
                     st.violation(Violation { signature: "101-no-tunnel".into(), detail: "after the 101 response nothing answers a WebSocket Ping: no tunnel was started".into(), replay: replay(resp.short()) });
                 } else {
                     st.target("tunnels_probed", 1);
+                }
+                // (a lost frame costs a 3 s wait: after three of them the point is made)
+                let lost_so_far = st.counters.get("pipelined_frames_lost").copied().unwrap_or(0);
+                if lost_so_far < 3 {
+                match pipelined_ping_probe(addr, &req).await {
+                    Some(true) => st.target("tunnels_probed_with_pipelined_frame", 1),
+                    Some(false) => {
+                        st.count("pipelined_frames_lost", 1);
+                        st.violation(Violation { signature: "101-pipelined-frame-lost".into(), detail: "the upgrade request and a WebSocket Ping were sent in one write: the 101 came back but the Ping was never answered (what was read past the request head did not reach the tunnel)".into(), replay: replay(resp.short()) });
+                    }
+                    None => st.inconclusive.push("c14: pipelined probe got no 101".into()),
+                }
                 }
             }
             Some(false) | None => {
